@@ -68,6 +68,33 @@ def refine_facts(C, E, model):
     return facts
 
 
+def solve_with_refinement(C, E, qname, fs, confirm, max_iter=16):
+    """generic counterexample-guided loop: solve; `confirm(model) -> (reproduced?, vector)`; when a model relies on a wrong
+    guess for an uninterpreted library predicate pin it to its reference value and re-solve.
+    Returns ('unsat', None, None) or ('sat', model, vector) with the vector natively confirmed."""
+    fs = list(fs)
+    for it in range(max_iter):
+        r, m = C.solve(qname if it == 0 else f'{qname} [refinement {it}]', fs)
+        if r == 'unsat':
+            return 'unsat', None, None
+        okc, v = confirm(m)
+        if okc:
+            return 'sat', m, v
+        if it == 0:
+            hints = uf_hints(E)
+            if hints:
+                r2, m2 = C.solve(qname + ' [hinted]', fs + hints)
+                if r2 == 'sat':
+                    okc, v2 = confirm(m2)
+                    if okc:
+                        return 'sat', m2, v2
+        facts = refine_facts(C, E, m)
+        if not facts:
+            raise Broken(f'counterexample of {qname} does not reproduce natively: {v}')
+        fs += facts
+    raise Inconclusive(f'refinement of uninterpreted predicates did not converge on {qname}')
+
+
 def classify(o):
     if o.kind == 'panic':
         if 'OUT-OF-MODEL' in str(o.value):
